@@ -39,6 +39,7 @@ def run(ctx):
     lib_kind.takeset_atomic(ctx, P)
     from . import lib_kind2
     lib_kind2.guard_nan(ctx, P)
+    lib_kind2.guard_nan(ctx, P, tus=("tables",), funcs={"tsk_ibd_finder_init"})
     lib_kind2.guard_seqlen(ctx, P)
     from . import lib_kind3
     lib_kind3.module_owner_refs(ctx, P)
